@@ -171,6 +171,8 @@ func (server *SugarDB) handleCommand(ctx context.Context, message []byte, conn *
 				break
 			}
 		}
+		// Whatever way the command ends (error, cluster apply, forwarding), the mutation is over.
+		defer server.stateMutationInProgress.Store(false)
 	}
 
 	if !server.isInCluster() || !synchronize {
